@@ -12,6 +12,7 @@ package xml
 //@ func xml.InflateAndDecode
 //@   names out, err
 //@   property C14 C18
+//@   assigns materialised
 //@   ensures C18.unknown-encoding-is-error: encoding != "" && encoding != EncodingDeflate ==> err != nil && len(out) == 0
 //@   ensures C18.bad-base64-is-error: b64 && !b64ok(message) ==> err != nil
 //@   ensures C18.plain: err == nil && encoding == "" ==> string(out) == payload(b64, message)
@@ -29,5 +30,8 @@ package xml
 //@ func xml.Marshal
 //@   names out, err
 //@   property C18
-//@   ensures header-then-one-document: err == nil ==> string(out) == xml.Header + xmlenc(tagof(data), valof(data))
+//@   assigns encRef, encTag, encVer, encCount
+//@   ensures header-then-one-document: err == nil ==> string(out) == xml.Header + xmlenc(tagof(data), valof(data), msgver)
+//@   ensures C18.one-encode-of-the-argument: err == nil ==> encRef == valof(data) && encTag == tagof(data) && encVer == msgver && encCount == old(encCount) + 1
+//@   ensures C18.at-most-one-encode: encCount <= old(encCount) + 1
 //@   ensures error-means-nothing: err != nil ==> len(out) == 0
